@@ -102,7 +102,7 @@ def gen_history(rng, length, readonly_safe=False, valkeys=None, funcs=3):
         elif r < 0.86:
             ops.append(["list_mems", f])
         elif r < 0.88:
-            ops.append(["list_mems_limit", f, rng.randint(1, 3)])
+            ops.append(["list_mems_limit", f, rng.randint(0, 3)])
         elif r < 0.94:
             ops.append(["wmeta", f, a, META_KEYS[0] if rng.random() < 0.7 else META_KEYS[1], "m%d" % rng.randrange(4)])
         else:
